@@ -46,7 +46,7 @@ PROPS = {
         part("churn", "stack/webstack", "TestVerifC20", race=True, gomaxprocs=8, shards=1, thorough_only=True)]},
     "C19": {"level": "exploration", "parts": [part("programs", "stack", "TestVerifC19", shards=1, gomaxprocs=8)]},
     "C18": {"level": "exploration", "parts": [part("layouts", "stack", "TestVerifC18")]},
-    "C17": {"level": "exploration", "parts": [part("html", "stack", "TestVerifC17")]},
+    "C17": {"level": "exploration", "parts": [part("html", "stack", "TestVerifC17"), part("cli", "internal", "TestVerifC17CLI", needs_pp=True)]},
     "C15": {"level": "exploration", "parts": [part("names", "stack", "TestVerifC15")]},
     "C12": {"level": "exploration", "parts": [part("agg", "stack", "TestVerifC12")]},
 }
